@@ -446,7 +446,16 @@ class Project:
                         other_path=license_files[identifier],
                     )
                 )
-                raise RuntimeError("Multiple licenses resolve to {identifier}")
+                raise GlobalLicensingConflictError(
+                    _(
+                        "{identifier} is the SPDX License Identifier of both"
+                        " {path} and {other_path}"
+                    ).format(
+                        identifier=identifier,
+                        path=path,
+                        other_path=license_files[identifier],
+                    )
+                )
             # Add the identifiers
             license_files[identifier] = path
             if (
